@@ -6,6 +6,7 @@
 # Part B: 2-3 queries of different kinds, each in its own thread, interleaved by the baton
 #         scheduler at every iterator / writer / registry call (optionally at source lines).
 
+import re
 import io
 import os
 import sys
@@ -103,6 +104,12 @@ KINDS = {
     'with_header_table': ('select a1, NR with (header)', {}),
     'join_two_keys': ('select a1, b2 left join B on a2 == b1 and a1 == b3', {'join': True, 'join_b3_from_a1': True}),
     'err_join_table_missing': ('select a1, b2 join B on a2 == b1', {'join_missing': True}),
+    # values around the interpreter's int <-> str digit limit (4300 by default): a process-wide setting
+    'big_agg': ('select MAX(a1), MIN(a1), SUM(a1)', {'bigdigits': True}),
+    'big_median_group': ('select a2, MEDIAN(a1) group by a2', {'bigdigits': True}),
+    'big_int_expr': ('select NR, int(a1) % 97', {'bigdigits': True}),
+    'big_pow_out': ('select a1, 2 ** (int(a1) * 5000)', {}),
+    'big_str_expr': ('select NR, len(str(3 ** (int(a1) * 3000)))', {}),
 }
 KIND_NAMES = sorted(KINDS)
 THREAD_KINDS = [k for k in KIND_NAMES]
@@ -122,6 +129,9 @@ def gen_op(rng, kind=None, api=None, max_rows=6, pool=40):
     if opt.get('floats'):
         for r in rows:
             r[0] = rng.choice(['1', '2.5', '3', '0.5', '10', '2'])
+    if opt.get('bigdigits'):
+        for r in rows:
+            r[0] = rng.choice(['7' * 4400, '12' * 2300, '5', '44', '9' * 4300, '1' + '0' * 4300])
     if opt.get('poison') and rows:
         rows[rng.randrange(len(rows))][0] = 'bad'
     if opt.get('join'):
@@ -280,8 +290,22 @@ def sim_classes(t):
     return _sim_classes['c']
 
 
+def _fold_bigints(x):
+    # an output value may be an int too long for int->str conversion (and so for json); carry its size and a hash of its hex form
+    if isinstance(x, bool):
+        return x
+    if isinstance(x, int) and x.bit_length() > 8000:
+        import hashlib
+        return '<int bits=%d sha=%s>' % (x.bit_length(), hashlib.sha256(hex(x).encode('ascii')).hexdigest()[:16])
+    if isinstance(x, (list, tuple)):
+        return [_fold_bigints(v) for v in x]
+    if isinstance(x, dict):
+        return {k: _fold_bigints(v) for k, v in x.items()}
+    return x
+
+
 def norm(x, w=None):
-    s = core.canon(x)
+    s = core.canon(_fold_bigints(x))
     if w:
         s = s.replace(w, '<W>')
     import json
@@ -414,16 +438,44 @@ def module_state(t):
     return [bool(t.engine.debug_mode), bool(t.csv.debug_mode)]
 
 
+_UNKNOWN_COLUMN = re.compile(r'Unable to find column "[^"]*"')
+
+
+def _hash_neutral(x):
+    """View used for the determinism digest only (never by an oracle): the engine picks which of several unknown
+    `a.name` columns it reports by iterating over a set of strings, so that one word of the message follows
+    PYTHONHASHSEED. Reference and observed runs are forks of one process and agree; the digest must not depend on it."""
+    if isinstance(x, str):
+        return _UNKNOWN_COLUMN.sub('Unable to find column "?"', x)
+    if isinstance(x, (list, tuple)):
+        return [_hash_neutral(v) for v in x]
+    if isinstance(x, dict):
+        return {k: _hash_neutral(v) for k, v in x.items()}
+    return x
+
+
 def process_state():
     """Interpreter-wide settings a library query has no business changing (compared before / after a history)."""
+    import csv
+    import decimal
+    import gc
     import locale
     import signal
+    import threading
     import warnings
-    return {'sys_path': list(sys.path), 'recursion_limit': sys.getrecursionlimit(), 'cwd': os.getcwd(),
+    extra = {'int_max_str_digits': sys.get_int_max_str_digits() if hasattr(sys, 'get_int_max_str_digits') else None,
+             'switch_interval': sys.getswitchinterval(), 'csv_field_size_limit': csv.field_size_limit(),
+             'decimal_context': repr(decimal.getcontext()), 'gc_enabled': gc.isenabled(), 'gc_threshold': list(gc.get_threshold()),
+             'excepthook_is_original': sys.excepthook is sys.__excepthook__, 'displayhook_is_original': sys.displayhook is sys.__displayhook__,
+             'threading_excepthook_is_original': threading.excepthook is threading.__excepthook__,
+             'trace': repr(sys.gettrace()), 'profile': repr(sys.getprofile()), 'default_encoding': sys.getdefaultencoding(),
+             'fs_encoding': sys.getfilesystemencoding(), 'dont_write_bytecode': sys.dont_write_bytecode}
+    extra.update({'sys_path': list(sys.path), 'recursion_limit': sys.getrecursionlimit(), 'cwd': os.getcwd(),
             'sigpipe': repr(signal.getsignal(signal.SIGPIPE)), 'sigint': repr(signal.getsignal(signal.SIGINT)),
             'locale': list(locale.getlocale()), 'warning_filters': [[f[0], str(f[1]), getattr(f[2], '__name__', str(f[2])), str(f[3]), f[4]] for f in warnings.filters],
             'stdout_is_original': sys.stdout is sys.__stdout__ or not getattr(sys.stdout, 'closed', False),
-            'environ': core.digest(sorted(os.environ.items()))}
+            'environ': core.digest(sorted(os.environ.items()))})
+    return extra
 
 
 def child_history(sc):
@@ -659,7 +711,7 @@ def execute(sc):
                 break
         if res['verdict'] == 'ok' and obs.get('process_state_changed'):
             res.update(verdict='violation', oracle='process_state', detail={'changed': obs['process_state_changed'], 'kind': sc['ops'][-1]['kind'], 'history': [o['kind'] for o in sc['ops']]})
-        res['digest'] = core.digest([obs, refs])
+        res['digest'] = core.digest(_hash_neutral([obs, refs]))
         return res
     if sc.get('enumerate'):
         esc = dict(sc)
@@ -682,7 +734,7 @@ def execute(sc):
             res.update(verdict='violation', oracle='interleaving', case=case,
                        detail={'thread': b['thread'], 'kind': sc['ops'][b['thread']]['kind'], 'others': [o['kind'] for j, o in enumerate(sc['ops']) if j != b['thread']],
                                'interleaved': b['outcome'], 'alone': refs[b['thread']], 'schedule': b['schedule'][:200], 'found_by': 'enumeration'})
-        res['digest'] = core.digest([obs['explored'], obs['complete'], obs['bad'], refs])
+        res['digest'] = core.digest(_hash_neutral([obs['explored'], obs['complete'], obs['bad'], refs]))
         return res
     obs = fork_call(child_interleaved, sc)
     res['steps'] = obs['yields']
@@ -694,7 +746,7 @@ def execute(sc):
         if any(e == 'cap' for e in obs['errors']):
             bump(counters, 'discard.step_cap')
             res['verdict'] = 'discard'
-            res['digest'] = core.digest([obs])
+            res['digest'] = core.digest(_hash_neutral([obs]))
             return res
         raise core.HarnessError('thread workload raised: %r' % (obs['errors'],))
     kinds = [op['kind'] for op in sc['ops']]
@@ -719,7 +771,7 @@ def execute(sc):
         res.update(verdict='violation', oracle='module_state', detail={'debug_flags': obs['state']})
     if res['verdict'] == 'ok' and obs.get('process_state_changed'):
         res.update(verdict='violation', oracle='process_state', detail={'changed': obs['process_state_changed'], 'kind': kinds[0], 'others': kinds[1:], 'schedule': obs['sched'][:200]})
-    res['digest'] = core.digest([obs, refs])
+    res['digest'] = core.digest(_hash_neutral([obs, refs]))
     return res
 
 
